@@ -177,8 +177,10 @@ class Evidence:
 
     def write(self):
         self.d['wall_s'] = round(time.time() - self.t0, 2)
-        os.makedirs(os.path.join(VERIF, 'evidence'), exist_ok=True)
-        p = os.path.join(VERIF, 'evidence', self.d['property_id'] + '.json')
+        # evidence describes /repo itself; runs against a scratch tree (VERIF_REPO) keep theirs with their build
+        edir = os.path.join(VERIF, 'evidence') if os.path.realpath(REPO) == '/repo' else os.path.join(BUILD, 'evidence')
+        os.makedirs(edir, exist_ok=True)
+        p = os.path.join(edir, self.d['property_id'] + '.json')
         tmp = p + '.tmp%d' % os.getpid()
         with open(tmp, 'w') as f:
             json.dump(self.d, f, indent=1, sort_keys=True)
